@@ -230,6 +230,23 @@ impl Property for C18 {
     fn assumptions(&self) -> Vec<String> {
         vec!["byte-level equality of the struct encoding and the variant payload follows from shape equality; it is exercised with rustc in the thorough tier of C01/C02".into()]
     }
+    fn extra(&self, tier: Tier, seed: u64, stats: &mut Stats) -> Result<(), Failure> {
+        // byte-level clause under rustc: the standalone struct decodes the variant's payload (the encoding of
+        // an enum value minus the index byte), consumes it and re-encodes to the same bytes
+        let (batches, size, encs) = tier.pick((1, 40, 8), (8, 120, 10));
+        for b in 0..batches {
+            let (cases, counters) = crate::rustc_tier::make_cases_ext(seed, 0xC18 + b as u64, size, false, encs, true);
+            for (k, v) in counters {
+                if !k.starts_with("label:") {
+                    stats.count(&format!("rustc_{k}"), v);
+                }
+            }
+            let n = crate::rustc_tier::run_batch(&format!("C18-{b}"), &cases, true)?;
+            stats.count("rustc_cases_compiled", cases.len() as u64);
+            stats.count("rustc_payload_round_trips", n);
+        }
+        Ok(())
+    }
     fn strata(&self, tier: Tier) -> Vec<Stratum> {
         vec![
             Stratum::random("programs", tier.pick(20_000, 500_000), tier.pick(384, 768)),
